@@ -195,20 +195,17 @@ public:
               this->deallocate();
               exchange_memory(*this, img);
           } else {
-              // cannot propagate the allocator and cannot adopt the memory
-              if (img._memory)
-              {
-                  allocate_and_copy(img.dimensions(), img._view);
-                  destruct_pixels(img._view);
-                  img.deallocate();
-                  img._view = image::view_t{};
-              }
-              else
-              {
-                  destruct_pixels(this->_view);
-                  this->deallocate();
-                  this->_view = view_t{};
-              }
+              // cannot propagate the allocator and cannot adopt the memory:
+              // deep-copy with our own allocator, take the copy's storage (the temporary
+              // releases ours), then release the source and leave it empty
+              image tmp(img._view, img._align_in_bytes, _alloc);
+              swap(tmp);
+              destruct_pixels(img._view);
+              img.deallocate();
+              img._memory = nullptr;
+              img._align_in_bytes = 0;
+              img._allocated_bytes = 0;
+              img._view = view_t{};
           }
       }
 
